@@ -28,10 +28,18 @@ inductive Expr where
   | ifNotNone (c t e : Expr)      -- `t if c is not None else e`
   deriving DecidableEq, Repr
 
+/-- Conditions of `if` statements: `e is not None`, Python truthiness of `e` (falsy = `None` or one of the
+listed atoms, i.e. `False`, `0`, `0.0`, `''` as they occur in the atom table), and negation. -/
+inductive Cond where
+  | notNone (e : Expr)
+  | truthy (e : Expr) (falsy : List Nat)
+  | neg (c : Cond)
+  deriving DecidableEq, Repr
+
 inductive Stmt where
   | setCls (c f : Nat) (e : Expr)
   | setSelf (f : Nat) (e : Expr)
-  | guardNotNone (c : Expr) (s : Stmt)           -- `if c is not None: s`
+  | guard (c : Cond) (s : Stmt)                  -- `if c: s` (an `else` branch is emitted as `guard (neg c)`)
   | raiseUnlessIn (e : Expr) (allowed : List Val) -- `if e not in {...}: raise`
   | warn                                         -- `warnings.warn(...)`: raises iff warnings are escalated to errors
   deriving DecidableEq, Repr
@@ -50,11 +58,18 @@ def Expr.eval (ρ : Env) : Expr → Val
   | .self f => ρ.self f
   | .ifNotNone c t e => if (c.eval ρ).isSome then t.eval ρ else e.eval ρ
 
+def Cond.eval (ρ : Env) : Cond → Bool
+  | .notNone e => (e.eval ρ).isSome
+  | .truthy e falsy => match e.eval ρ with
+    | none => false
+    | some a => !falsy.contains a
+  | .neg c => !c.eval ρ
+
 /-- Returns the environment after the statement and whether it raised (a raising statement changes nothing). -/
 def Stmt.exec (ρ : Env) : Stmt → Env × Bool
   | .setCls c f e => ({ ρ with store := setS ρ.store c f (e.eval ρ) }, false)
   | .setSelf f e => ({ ρ with self := setF ρ.self f (e.eval ρ) }, false)
-  | .guardNotNone c s => if (c.eval ρ).isSome then s.exec ρ else (ρ, false)
+  | .guard c s => if c.eval ρ then s.exec ρ else (ρ, false)
   | .raiseUnlessIn e allowed => if allowed.contains (e.eval ρ) then (ρ, false) else (ρ, true)
   | .warn => (ρ, ρ.strict)
 
